@@ -33,6 +33,7 @@ MIN_EVALUATIONS = {"quick": 30, "thorough": 300}
 REQUIRED_COUNTERS = ["eval:loss_at_truth_nonzero", "eval:truth_not_stationary"]
 
 KINDS = ["general", "general", "ties", "mask", "nonorth", "dataset_opt", "constant", "constant_roll", "general"]
+BIGSCAN_EVERY = 29  # one scene in 29 has > 1000 scan positions (not a multiple of 1000): the patch indices are built in chunks of 1000
 LOSSES = ["l2_amplitude", "l1_amplitude", "l2_intensity", "l1_intensity"]
 RATIO = {"l2_amplitude": 1e-6, "l2_intensity": 1e-6, "l1_amplitude": 1e-3, "l1_intensity": 1e-3}
 
@@ -103,6 +104,12 @@ def run_case(spec, idx, ctx):
         roi = [(16, 16), (16, 32), (32, 16)][int(rng.integers(3))]
         kw = dict(roi=roi, samp=(float(rng.choice([0.25, 0.5])), float(rng.choice([0.25, 0.5]))), gaussian_probe=True,
                   step_px=(float(rng.choice([0.5, 1.5, 2.5, 1.0])), float(rng.choice([0.5, 1.5, 2.5]))), pad_req=(int(rng.integers(2, 9)), int(rng.integers(2, 9))))
+        build["com_fit"] = "no_shift"
+    elif idx % BIGSCAN_EVERY == 7:
+        kind = "bigscan"
+        common["kind"] = kind
+        kw = dict(gpts=[(23, 45), (26, 40), (7, 149), (143, 7)][(idx // BIGSCAN_EVERY) % 4], roi=(int(rng.integers(8, 11)), int(rng.integers(8, 11))), num_slices=1, num_modes=int(rng.integers(1, 3)),
+                  pad_req=(int(rng.integers(2, 9)), int(rng.integers(2, 9))))
         build["com_fit"] = "no_shift"
     else:
         build["com_fit"] = "no_shift"
@@ -189,7 +196,8 @@ def run_case(spec, idx, ctx):
     pt.dset.forward(np.arange(int(np.prod(sc.gpts))), pt.obj_padding_px)  # applies the dataset's hard constraints, as every iteration does
     pos = pt.dset.scan_positions_px.detach().cpu().numpy().astype(np.float64)
     ctx.close(np.abs(pos - sc.positions_px).max(), 2e-4, "scan_positions_mismatch", lambda: "library scan positions differ from index*step/sampling+padding", track="clipped(known finding)" if clip == "on" else None, **common)
-    ctx.close(abs(float(pt.dset.mean_diffraction_intensity) / I.sum((2, 3)).mean() - 1), 1e-5, "mean_intensity_mismatch", "mean diffraction intensity", **common)
+    # (the library accumulates the pattern sums in float32: the rounding grows with the number of patterns; a lost pattern gives 1/J)
+    ctx.close(abs(float(pt.dset.mean_diffraction_intensity) / I.sum((2, 3)).mean() - 1), 1e-5 * max(1.0, int(np.prod(sc.gpts)) / 50.0), "mean_intensity_mismatch", "mean diffraction intensity", **common)
 
     # ---- loss at the truth, every loss type, public path + explicit chain ----------------------------
     sc_po = dataclasses.replace(sc, obj=_perturb_obj(rng, sc))
@@ -229,7 +237,10 @@ def run_case(spec, idx, ctx):
                 ctx.close(abs(Lc - Lo) / max(abs(Lo), 1e-30), 1e-4, "chain_vs_public_loss", lambda: "%s explicit chain=%.6e reconstruct()=%.6e (batch %s)" % (lt, Lc, Lo, bs), **f)
     # ---- predicted patterns vs measured, directly ---------------------------------------------------
     if kind != "dataset_opt":
-        _l, pred = scenes.chain_loss(pt, "l2_intensity")
+        audit = {}
+        _l, pred = scenes.chain_loss(pt, "l2_intensity", audit=audit)
+        for name, val in audit.items():
+            ctx.close(val, 0.0 if name.endswith("_modified") else 1e-6, name, lambda: "explicit chain at the ground truth: %s = %.3e (stages must not modify their arguments and must be repeatable on the same tensors)" % (name, val), **common)
         meas = pt.dset.centered_intensities.detach().cpu().numpy() if not kind.startswith("constant") else None
         Iflat = I.reshape(-1, *sc.roi)
         if kind.startswith("constant"):
